@@ -88,11 +88,35 @@ def gen_spec(rng):
     return s
 
 
+def gen_full_spec(rng, canary):
+    """every field set (what a stored, already defaulted object looks like), with boundary values"""
+    nn = lambda dom: rng.choice([x for x in dom if x is not None])
+    s = {"rollingUpdate": {"maxUnavailable": nn(IOPS), "maxPodSchedulerFailure": nn(IOPS), "maxParallelPodCreation": nn(INTS),
+                           "slowStartIntervalDuration": nn(DURS), "slowStartAdditiveIncrease": nn(IOPS)},
+         "reconcileFrequency": nn(DURS)}
+    if canary:
+        mode = rng.choice(["auto", "manual"])
+        c = {"replicas": nn(IOPS), "validationMode": mode, "nodeSelector": rng.choice([{}, {"matchLabels": {"a": "b"}}]),
+             "autoPause": {"enabled": rng.random() < 0.5, "maxRestarts": nn(INTS)},
+             "autoFail": {"enabled": rng.random() < 0.5, "maxRestarts": nn(INTS)}}
+        if mode == "auto" or rng.random() < 0.2:
+            c["duration"] = nn(DURS)
+        if rng.random() < 0.3:
+            c["noRestartsDuration"] = nn(DURS)
+        s["canary"] = c
+    return s
+
+
 def generate(rng, tier, stats):
     out = []
     nd = 500 if tier == "quick" else 12000
     for _ in range(nd):
         out.append({"kind": "c16_default", "strategy": gen_spec(rng), "template_name": rng.choice(["", "", "named"]),
+                    "mode": rng.choice(["auto", "manual"])})
+    # objects that already went through defaulting (every field set), with and without a canary block, with and without
+    # the one thing defaulting removes (a name on the pod template)
+    for _ in range(120 if tier == "quick" else 2500):
+        out.append({"kind": "c16_default", "strategy": gen_full_spec(rng, rng.random() < 0.6), "template_name": rng.choice(["", "named"]),
                     "mode": rng.choice(["auto", "manual"])})
     # witnesses of the repaired defects
     out.append({"kind": "c16_default", "strategy": {"canary": {"validationMode": "manual", "autoFail": {"canaryTimeout": "60s"}}},
